@@ -9,6 +9,8 @@ import (
 	"testing"
 	"testing/synctest"
 	"time"
+
+	"github.com/basecamp/kamal-proxy/internal/server"
 )
 
 type c10Scenario struct {
@@ -44,7 +46,7 @@ func c10Gen(rng *rand.Rand, idx int, thorough bool) c10Scenario {
 		sc.Kind = "history"
 		n := 4 + rng.IntN(10)
 		for i := 0; i < n; i++ {
-			sc.Hist = append(sc.Hist, pick(rng, []string{"rollout-deploy", "set100", "set0+allow", "rollout-stop", "deploy", "set50", "rollout-deploy"}))
+			sc.Hist = append(sc.Hist, pick(rng, []string{"rollout-deploy", "set100", "set0+allow", "rollout-stop", "deploy", "set50", "rollout-deploy", "restart", "restart"}))
 		}
 	case idx%4 == 2:
 		sc.Kind = "hostile"
@@ -107,13 +109,14 @@ func c10Run(t *testing.T, run *Run, sc c10Scenario, rng *rand.Rand) {
 		return
 	}
 	nreq := 0
+	cur := w.Primary() // the proxy currently in charge (replaced by a restored one on "restart")
 	side := func(cookieHeader string) string {
 		nreq++
 		r := Req{ID: fmt.Sprintf("q%d", nreq), Host: "c10.example", Path: "/"}
 		if cookieHeader != "" {
 			r.Hdr = [][2]string{{"Cookie", cookieHeader}}
 		}
-		resp := w.Do(r)
+		resp := cur.Do(r)
 		if resp.Status != 200 || resp.Target == "" {
 			return fmt.Sprintf("!status=%d err=%s", resp.Status, resp.Err)
 		}
@@ -127,7 +130,7 @@ func c10Run(t *testing.T, run *Run, sc c10Scenario, rng *rand.Rand) {
 		return true
 	}
 	if sc.Kind == "history" {
-		c10History(w, run, sc, side, fail)
+		c10History(w, run, sc, side, fail, &cur)
 		return
 	}
 	// `rollout set` before rollout targets exist is rejected
@@ -265,8 +268,9 @@ func c10Run(t *testing.T, run *Run, sc c10Scenario, rng *rand.Rand) {
 
 // c10History: deploy / rollout deploy / set / stop histories with exact expectations
 // (100% split, 0% + allowlist, 50% only compared with itself).
-func c10History(w *World, run *Run, sc c10Scenario, side func(string) string, fail func(sig, format string, a ...any)) {
+func c10History(w *World, run *Run, sc c10Scenario, side func(string) string, fail func(sig, format string, a ...any), cur **Proxy) {
 	const svc = "svc"
+	router := func() *server.Router { return (*cur).Router }
 	hasRollout, split := false, ""
 	gen := 1
 	panel := []string{"u1", "u2", "zz9", "0123456789abcdef"}
@@ -277,8 +281,8 @@ func c10History(w *World, run *Run, sc c10Scenario, side func(string) string, fa
 			gen++
 			name := fmt.Sprintf("r%d-t0:80", gen)
 			w.AddTarget(name, nil)
-			if c := w.RolloutDeploy(svc, []string{name}, 5*time.Second, time.Second); c.Err != "" {
-				fail("rollout-deploy-failed", "step %d: %s", step, c.Err)
+			if err := router().SetRolloutTargets(svc, []string{name}, 5*time.Second, time.Second); err != nil {
+				fail("rollout-deploy-failed", "step %d: %v", step, err)
 				return
 			}
 			hasRollout = true
@@ -286,16 +290,25 @@ func c10History(w *World, run *Run, sc c10Scenario, side func(string) string, fa
 			gen++
 			name := fmt.Sprintf("a%d-t0:80", gen)
 			w.AddTarget(name, nil)
-			if c := w.Deploy(svc, []string{name}, DefSO, DefTO, 5*time.Second, time.Second); c.Err != "" {
-				fail("deploy-failed", "step %d: %s", step, c.Err)
+			if err := router().DeployService(svc, []string{name}, DefSO, DefTO, 5*time.Second, time.Second); err != nil {
+				fail("deploy-failed", "step %d: %v", step, err)
 				return
 			}
 		case "rollout-stop":
-			if c := w.RolloutStop(svc); c.Err != "" {
-				fail("rollout-stop-failed", "step %d: %s", step, c.Err)
+			if err := router().StopRollout(svc); err != nil {
+				fail("rollout-stop-failed", "step %d: %v", step, err)
 				return
 			}
 			split = ""
+		case "restart":
+			// a new proxy restored from the state file takes over; targets, split and its decisions
+			// must be what they were
+			p2 := w.NewProxy(w.CopyStateOf((*cur).StatePath))
+			if err := p2.Router.RestoreLastSavedState(); err != nil {
+				fail("restore-failed", "step %d: %v", step, err)
+				return
+			}
+			*cur = p2
 		default: // set100 | set0+allow | set50
 			p, allow := 100, []string(nil)
 			if h == "set0+allow" {
@@ -304,7 +317,7 @@ func c10History(w *World, run *Run, sc c10Scenario, side func(string) string, fa
 			if h == "set50" {
 				p = 50
 			}
-			c := w.RolloutSet(svc, p, allow)
+			c := w.Cmd("rollout-set", fmt.Sprint(p, allow), func() error { return router().SetRolloutSplit(svc, p, allow) })
 			if !hasRollout {
 				if c.Err == "" {
 					fail("split-accepted-without-rollout-targets", "step %d: rollout set accepted although no rollout targets were ever deployed", step)
